@@ -1,4 +1,167 @@
-import Physt.Theorems.C01
+import Physt.Proofs.GridCover
+import Mathlib.Algebra.Order.Floor.Ring
+import Mathlib.Data.Rat.Floor
+import Mathlib.Algebra.Order.Field.Rat
+/-!
+# C04 — adaptive fixed-width histograms never lose a value when bins grow
+
+The implementation computes grid edges `k*width + shift` and the cell estimate
+`floor((v - shift)/width)` in floating point.  The theorems quantify over **every** `FloatOps`
+instance (the parameter standing for those computations) whose edge function is strictly
+increasing, and over **every** estimate within the search fuel: rounding can then neither lose a
+value nor mis-place it.  For exact arithmetic the hypotheses are proved (`C04_exact_*`); for IEEE
+doubles the driver checks strict monotonicity on every case it runs.
+-/
 namespace Physt
-theorem C04_placeholder : True := trivial
+open Grid H1
+
+/-- **The corrected cell search.** For any strictly increasing edge function and any estimate,
+    `_find_grid_index` returns the unique cell `k` with `edge k ≤ v < edge (k+1)`. -/
+theorem C04_locate (edge : Int → Rat) (hmono : ∀ a b : Int, a < b → edge a < edge b) (v : Rat)
+    (k est : Int) (fuel : Nat) (hk : edge k ≤ v ∧ v < edge (k + 1)) (hf : (est - k).natAbs ≤ fuel) :
+    locate edge v fuel est = k :=
+  locate_spec edge v hmono k est fuel hk hf
+
+/-- In exact arithmetic a positive width gives a strictly increasing edge function … -/
+theorem C04_exact_mono (w s : Rat) (hw : 0 < w) : EdgeMono FloatOps.exact w s := by
+  intro a b hab
+  simp only [FloatOps.exact]
+  have : (a : Rat) < (b : Rat) := by exact_mod_cast hab
+  nlinarith
+
+/-- … and the floor of the quotient *is* the cell, so the search needs no correction at all. -/
+theorem C04_exact_cell (w s v : Rat) (hw : 0 < w) :
+    CellOf (FloatOps.exact.edge w s) v (FloatOps.exact.est w s v) := by
+  simp only [FloatOps.exact, CellOf]
+  have h1 : ((⌊(v - s) / w⌋ : Int) : Rat) ≤ (v - s) / w := Int.floor_le _
+  have h2 : (v - s) / w < ((⌊(v - s) / w⌋ : Int) : Rat) + 1 := Int.lt_floor_add_one _
+  have hfl : ((v - s) / w).floor = ⌊(v - s) / w⌋ := rfl
+  rw [hfl]
+  constructor
+  · have := mul_le_mul_of_nonneg_right h1 (le_of_lt hw)
+    rw [div_mul_cancel₀ _ (ne_of_gt hw)] at this
+    linarith
+  · have := mul_lt_mul_of_pos_right h2 hw
+    rw [div_mul_cancel₀ _ (ne_of_gt hw)] at this
+    push_cast
+    linarith
+
+theorem sum_replicate_zero (n : Nat) : (List.replicate n (0 : Rat)).sum = 0 := by
+  induction n with
+  | zero => rfl
+  | succ n ih => simp [List.replicate_succ, ih]
+
+/-- moving the contents to their new position keeps them all (sum and length) -/
+theorem reshape1_shift (old : List Rat) (k newSize : Nat) (h : k + old.length ≤ newSize) :
+    (reshape1 old newSize (.shift k)).sum = old.sum ∧ (reshape1 old newSize (.shift k)).length = newSize ∧
+    ∀ j, j < old.length → (reshape1 old newSize (.shift k))[k + j]? = old[j]? := by
+  have hlen : (List.replicate k (0 : Rat) ++ old ++ List.replicate (newSize - k - old.length) 0).length = newSize := by
+    simp; omega
+  have htake : (List.replicate k (0 : Rat) ++ old ++ List.replicate (newSize - k - old.length) 0).take newSize
+      = List.replicate k 0 ++ old ++ List.replicate (newSize - k - old.length) 0 := by
+    rw [List.take_of_length_le (by omega)]
+  simp only [reshape1, htake]
+  refine ⟨by simp [sum_replicate_zero], hlen, ?_⟩
+  intro j hj
+  rw [List.append_assoc, List.getElem?_append_right (by simp)]
+  simp only [List.length_replicate, Nat.add_sub_cancel_left]
+  rw [List.getElem?_append_left hj]
+
+theorem addAt_sum (l : List Rat) (i : Nat) (w : Rat) (hi : i < l.length) : (addAt l i w).sum = l.sum + w := by
+  induction l generalizing i with
+  | nil => simp at hi
+  | cons a t ih =>
+    cases i with
+    | zero => simp [addAt, List.modify]; ring
+    | succ i =>
+      have := ih i (by simpa using hi)
+      simp only [addAt, List.modify_succ_cons, List.sum_cons] at this ⊢
+      rw [this]; ring
+
+/-- What `C04_fill` needs to know about the state: an adaptive, aligned, right-open grid whose
+    contents have the grid's length, with tracking of missed values on. -/
+structure GridState (h : H1) (g : Grid) : Prop where
+  binning : h.binning = .fixed g
+  adaptive : g.adaptive = true
+  align : g.align = true
+  ire : g.ire = false
+  keep : h.keep = true
+  flen : h.freq.length = g.count
+  elen : h.err2.length = g.count
+
+/-- **A filled value is never lost.**  For every strictly increasing edge function and every
+    estimate within the fuel: `fill(v, w)` on an adaptive histogram grows the grid so that it covers
+    the cell of `v` *and* every cell it covered before, reports a bin (never underflow, overflow or
+    a gap), adds `w` to the total, and leaves underflow / overflow untouched. -/
+theorem C04_fill (fo : FloatOps) (fuel : Nat) (h : H1) (g : Grid) (st : GridState h g) (v w : Rat) (wk : NumKind)
+    (k : Int) (hm : EdgeMono fo g.w g.shift) (hk : CellOf (g.edgeAt fo) v k)
+    (hf : (fo.est g.w g.shift v - k).natAbs ≤ fuel) :
+    ∃ g' : Grid, GridState (h.fill fo fuel (some v) w wk).1 g' ∧
+      g'.w = g.w ∧ g'.shift = g.shift ∧
+      g'.tmin ≤ k ∧ k < g'.tmin + g'.count ∧
+      (0 < g.count → g'.tmin = min g.tmin k ∧ g'.tmin + g'.count = max (g.tmin + g.count) (k + 1)) ∧
+      (g.count = 0 → g'.tmin = k ∧ g'.count = 1) ∧
+      (h.fill fo fuel (some v) w wk).2 = some (.bin (k - g'.tmin).toNat) ∧
+      (h.fill fo fuel (some v) w wk).1.freq.sum = h.freq.sum + w ∧
+      (h.fill fo fuel (some v) w wk).1.under = h.under ∧ (h.fill fo fuel (some v) w wk).1.over = h.over := by
+  have cov := forceSingle_covers fo fuel g v k st.align hm hk hf
+  simp only at cov
+  obtain ⟨hw, hs, hal, had, hire, hlo, hhi, hzero, hpos⟩ := cov
+  -- the reshape instruction matches the growth
+  have hreshape : ∀ old : List Rat, old.length = g.count →
+      (reshape1 old (g.forceSingle fo fuel v false).1.count (g.forceSingle fo fuel v false).2).sum = old.sum ∧
+      (reshape1 old (g.forceSingle fo fuel v false).1.count (g.forceSingle fo fuel v false).2).length
+        = (g.forceSingle fo fuel v false).1.count := by
+    intro old hold
+    have hloc : g.findIndex fo fuel v = k := locate_spec (g.edgeAt fo) v hm k _ fuel hk hf
+    unfold forceSingle
+    by_cases h0 : g.count = 0
+    · have : old = [] := List.length_eq_zero_iff.mp (by omega)
+      subst this
+      simp [h0, st.align, reshape1, sum_replicate_zero]
+    · simp only [h0, if_false]
+      by_cases h1 : v < g.firstEdge fo
+      · have hkt : k < g.tmin := cell_lt_of_lt hm hk h1
+        have hal' : (g.tmin - k).toNat ≠ 0 := by omega
+        simp only [h1, if_true, hloc, hal', if_false]
+        have := reshape1_shift old (g.tmin - k).toNat (g.count + (g.tmin - k).toNat) (by omega)
+        exact ⟨this.1, this.2.1⟩
+      · simp only [h1, if_false]
+        by_cases h2 : g.lastEdge fo ≤ v
+        · have hkt : g.tmin + g.count ≤ k := cell_ge_of_le hm hk h2
+          have hne : ¬ (k - g.tmin + 1 - (if g.edgeAt fo k = v ∧ false = true then 1 else 0) - (g.count : Int) = 0) := by
+            simp; omega
+          simp only [h2, if_true, hloc, hne, if_false]
+          have := reshape1_shift old 0 ((g.count : Int) + (k - g.tmin + 1 - (if g.edgeAt fo k = v ∧ false = true then 1 else 0) - (g.count : Int))).toNat
+            (by simp; omega)
+          exact ⟨this.1, this.2.1⟩
+        · simp [h2, reshape1, hold]
+  refine ⟨(g.forceSingle fo fuel v false).1, ?_⟩
+  have hfind : findBinIn ((g.forceSingle fo fuel v false).1.bins fo) v
+      = .bin (k - (g.forceSingle fo fuel v false).1.tmin).toNat := by
+    rw [bins_eq_binsFrom]
+    have hm' : ∀ a b : Int, a < b → (g.forceSingle fo fuel v false).1.edgeAt fo a < (g.forceSingle fo fuel v false).1.edgeAt fo b := by
+      intro a b hab; simp only [edgeAt, hw, hs]; exact hm a b hab
+    have hk' : CellOf ((g.forceSingle fo fuel v false).1.edgeAt fo) v k := by
+      simp only [CellOf, edgeAt, hw, hs]; exact hk
+    exact findBinIn_grid _ hm' _ _ v k hk' hlo hhi
+  have hidx : (k - (g.forceSingle fo fuel v false).1.tmin).toNat < (g.forceSingle fo fuel v false).1.count := by omega
+  unfold fill
+  simp only [adapt, coerce, st.binning, st.adaptive, if_true, st.ire, findBin, H1.bins, Binning.bins, hfind]
+  have rf := hreshape h.freq st.flen
+  have re := hreshape h.err2 st.elen
+  refine ⟨⟨rfl, by rw [had]; exact st.adaptive, by rw [hal]; exact st.align, by rw [hire]; exact st.ire, st.keep, ?_, ?_⟩,
+    hw, hs, hlo, hhi, hpos, hzero, by trivial, ?_, by trivial, by trivial⟩
+  · simp [addAt, rf.2]
+  · simp [addAt, re.2]
+  · rw [addAt_sum _ _ _ (by rw [rf.2]; exact hidx), rf.1]
+
+/-! Non-vacuity: the exact instance with width 1/10 and the value 17/10 (the decimal literal that the
+    uncorrected code lost) satisfies every hypothesis of `C04_fill`; and whatever the estimate, the
+    search lands on cell 17. -/
+example : EdgeMono FloatOps.exact (1 / 10) 0 ∧ CellOf (FloatOps.exact.edge (1 / 10) 0) (17 / 10) 17 :=
+  ⟨C04_exact_mono _ _ (by norm_num), by simp only [CellOf, FloatOps.exact]; constructor <;> norm_num⟩
+example : locate (FloatOps.exact.edge (1 / 10) 0) (17 / 10) 8 16 = 17 ∧
+    locate (FloatOps.exact.edge (1 / 10) 0) (17 / 10) 8 19 = 17 := by decide +kernel
+
 end Physt
